@@ -136,6 +136,10 @@ func BatchIsValidMaps(
 				return err
 			}
 
+			if h := m.Manifest().Height(); h != height {
+				return errors.Errorf("wrong height of BlockMap; expected %d, but %d", height, h)
+			}
+
 			if err := func() error {
 				validateLock.Lock()
 				defer validateLock.Unlock()
